@@ -886,23 +886,23 @@ SUBCHECKS = [
         rule="1-4 factors, shapes 1-4, kinds nd/csr/csc/LinearOperator; non-trivial: mixed kinds or rectangular "
              "or matrix argument or >=3 factors", floor=50),
     Sub("apply_kronecker", check_apply_kronecker, strategy=lambda tier: strat_apply_kronecker(), quick=600,
-        thorough=15000, rule="square factors (documented domain), list/tuple of operands", floor=30),
+        thorough=15000, rule="square factors (documented domain), list/tuple of operands", shards=8, floor=30),
     Sub("tprod", check_tprod, strategy=lambda tier: strat_tprod(), quick=1000, thorough=25000,
         rule="apply_tprod with None placeholders and 0-2 trailing axes; modek_tprod on 1-4-way tensors", floor=50),
     Sub("block", check_block, strategy=lambda tier: strat_block(), quick=900, thorough=22000,
         rule="1-3 x 1-3 block layouts with NullOperator blocks; 1-4 diagonal blocks; nested pyiga operators", floor=50),
     Sub("simple", check_simple, strategy=lambda tier: strat_simple(), quick=500, thorough=10000,
         rule="Diagonal (diag given as (n,),(n,1),(1,n)) / Identity / Null; non-trivial: matrix argument or a view",
-        floor=30),
+        shards=8, floor=30),
     Sub("subspace", check_subspace, strategy=lambda tier: strat_subspace(), quick=500, thorough=12000,
-        rule="general, selection and partition families; n=1..5", floor=30),
+        rule="general, selection and partition families; n=1..5", shards=8, floor=30),
     Sub("solvers", check_solver, strategy=lambda tier: strat_solver(), quick=600, thorough=15000,
         rule="general / symmetric indefinite / SPD, dense / CSR / CSC / COO, flags only when true; residual oracle",
-        floor=30),
+        shards=8, floor=30),
     Sub("fastdiag", check_fastdiag, strategy=lambda tier: strat_fastdiag(), quick=300, thorough=6000,
-        rule="dim 1-3, P1-FEM (Dirichlet/Neumann) and random SPD pairs, dense inputs", floor=20),
+        rule="dim 1-3, P1-FEM (Dirichlet/Neumann) and random SPD pairs, dense inputs", shards=8, floor=20),
     Sub("csr_rows", check_csr_rows, strategy=lambda tier: strat_csr_rows(), quick=400, thorough=8000,
-        rule="CSR with explicit zeros / unsorted indices; slices incl. empty/full; subsets with repeats", floor=30),
+        rule="CSR with explicit zeros / unsorted indices; slices incl. empty/full; subsets with repeats", shards=8, floor=30),
 ]
 
 KNOWN = {}
